@@ -186,7 +186,7 @@ CLAIMED = {
          'cache equals whole-sequence attention under the causal mask for every attention function and cache size; make_attention_mask is the pairwise predicate, row i of make_causal_mask '
          'selects exactly the keys 0 .. i (the prefix the decode cache holds at step i), combine_masks is the pointwise conjunction of the masks given and None when none is; attention over the rationals (logits in units of ln 2): a masked position gets weight exactly 0, '
          'the weights of a query with an allowed key sum to 1 and are proportional to exp(logit) over the allowed positions (the softmax), subtracting a constant from the logits changes nothing, '
-         'and keys / biases / values at masked positions cannot influence the output. Tied to /repo '
+         'and keys / biases / values at masked positions cannot influence the output. Bidirectional at the valid positions is the forward cell looped over the valid inputs paired with the reversed outputs of the backward cell looped over the valid inputs reversed, the carries are those of the two loops and padding is inert in both directions. Tied to /repo '
          'per run: the mask helpers of Linen and NNX on integer inputs in four dtypes (values a half-precision float cannot represent included) against the model; an integer cell under nn.RNN / nnx.RNN / Bidirectional '
          '(batch shapes (), (b,), (b1,b2), time_major, initial carries) compared exactly with the model; the real cells against numpy recurrences and the manual loop with padded inputs '
          'perturbed; attention weights against a numpy softmax, masked weights exactly zero, ignored keys / values perturbed; dot_product_attention(_weights) of Linen and NNX on integer q / k / v / bias in units of ln 2 against the rational model; decode vs causal in Linen and NNX on the same parameters.',
